@@ -397,3 +397,10 @@ REPLAY = {"onestep": lambda c: explore_onestep(c).fails, "words": lambda c: expl
 def bounds(tier):
     return dict(full_menu=len(menu(tier, True)), full_menu_depth=2, reduced_menu=len(menu(tier, False)),
                 reduced_menu_depth=4 if tier == "thorough" else 3)
+
+# keyword / dict calls bind the documented names (see mc/kw.py)
+from .. import kw as _kw  # noqa: E402
+
+_KW = _kw.KwSub("ins")
+SUBCHECKS["keywords"] = _KW
+REPLAY["keywords"] = _KW.replay
